@@ -66,6 +66,16 @@ func mixerRunCase(ctx *Ctx, sel string, l1, l2 []int, r1, r2 bool, ops []string)
 		return noReset{it}
 	}
 	var mx iterable.Mixer[int]
+	if (len(l1)+2*len(l2)+len(ops))%3 == 0 {
+		// the Mixer value is RE-USED: a first, partial use on other inputs (one element buffered, one emitted),
+		// then Init with this case's inputs — Init must make it indistinguishable from a fresh one
+		// (decided by the case itself so that a replay does the same)
+		mx.Init(mixerSel["lt"], mk([]int{7, 8, 9}, true), mk([]int{5, 6}, true))
+		mx.HasNext()
+		mx.Next()
+		mx.HasNext()
+		ctx.R.Branch("re-initialised mixer")
+	}
 	mx.Init(mixerSel[sel], mk(l1, r1), mk(l2, r2))
 	ctx.R.Case(sel, fmtInts(l1), fmtInts(l2), r1, r2)
 	// non-trivial: both inputs non-empty with a tie under the selector, or a Reset in mid-stream
